@@ -6,6 +6,7 @@ BOTH(int, k_is_legal, const unsigned char*, unsigned long)
 BOTH(int, k_to_cp, const char*, unsigned long, unsigned*, long*, int)
 BOTH(unsigned long, k_count_cp, const char*, unsigned long)
 BOTH(int, k_cp_to_utf8, unsigned, char*, unsigned long, unsigned long*)
+BOTH(int, k_sur_class, unsigned)
 BOTH(unsigned long, k_escape, const char*, unsigned long, int, int, char*, unsigned long, unsigned long*)
 }
 static void one(const char* u, unsigned long ul) {
@@ -27,6 +28,7 @@ ST_MAIN_BEGIN
     for (int i = 0; i < ul; i++) { int r = st_rand() % 4; u[i] = r == 0 ? (char)(st_rand() % 128) : r == 1 ? (char)(0x80 + st_rand() % 0x40) : r == 2 ? (char)(0xC0 + st_rand() % 0x40) : (char)(st_rand() % 256); }
     one(u, ul);
     unsigned cp = st_rand() % 3 ? st_rand() % 0x110000 : (unsigned)st_rand(); char b1[8] = {0}, b2[8] = {0}; unsigned long n1 = 0, n2 = 0;
+    ST_CHECK(k_sur_class(cp) == c_k_sur_class(cp)); ST_CHECK(k_sur_class(0xD7FF + it % 0x802) == c_k_sur_class(0xD7FF + it % 0x802));
     int ra = k_cp_to_utf8(cp, b1, 8, &n1), rb = c_k_cp_to_utf8(cp, b2, 8, &n2); ST_CHECK(ra == rb && n1 == n2 && !memcmp(b1, b2, 8));
   }
 ST_MAIN_END
